@@ -32,6 +32,7 @@ type World struct {
 	globalID map[*ssa.Global]int
 	srcCache map[string][]byte
 	purePats []string
+	inferredPure map[string]bool
 }
 
 const modulePath = "github.com/titpetric/vuego"
@@ -166,6 +167,7 @@ func loadWorld(repo string, stubDirs []string) (*World, error) {
 		return nil, fmt.Errorf("contract parse errors:\n  %s", strings.Join(w.cs.Errs, "\n  "))
 	}
 	w.specs = newSpecTable(w)
+	w.inferPurity()
 	return w, nil
 }
 
